@@ -43,10 +43,12 @@ def evFail : Ev → Option Err
   | .fact i ok => if ok then none else some (.fact i)
   | .dflt => none
 
-def fillAddr? (s : Step) : Option Nat :=
-  s.evs.findSome? fun | .fill _ a _ => a | _ => none
-def ctorConf? (s : Step) : Option Nat :=
-  s.evs.findSome? fun | .ctor _ c _ => c | _ => none
+def fillAddrEv : Ev → Option Nat | .fill _ a _ => a | _ => none
+def ctorConfEv : Ev → Option Nat | .ctor _ c _ => c | _ => none
+/-- identity of the config fillConf was invoked on in this step -/
+def fillAddr? (s : Step) : Option Nat := s.evs.findSome? fillAddrEv
+/-- identity of the `*Conf` the constructor was invoked with in this step -/
+def ctorConf? (s : Step) : Option Nat := s.evs.findSome? ctorConfEv
 def prodCell? (s : Step) : Option Nat := (product? s).bind (·.cell)
 
 def fillFailed (s : Step) : Bool := s.evs.any fun | .fill _ _ ok => !ok | _ => false
@@ -112,15 +114,21 @@ def freshOk (inp : Input) (obs : Obs) : Bool :=
 /-- C18_once on an observation: a factory made from a factory constructor -/
 def onceApplies (inp : Input) : Bool := inp.sh.factory && inp.form != .component
 
+/-- creation: the default-config function (if any), fillConf (if given) and — unless fillConf failed — the
+registered factory constructor are invoked once each; the factory it returns is not invoked yet -/
+def onceCreateOk (sh : Shape) (w : World) (c : Step) : Bool :=
+  c.evs.countP isDflt == (if sh.cfg = .none || sh.dflt = .absent then 0 else 1) &&
+  c.evs.countP isFill == (if w.hasFill then 1 else 0) &&
+  c.evs.countP isCtor == (if fillFailed c then 0 else 1) &&
+  c.evs.countP isFact == 0
+
+/-- a call: exactly one invocation of user code, the registered factory -/
+def onceCallOk (s : Step) : Bool := s.evs.length == 1 && s.evs.countP isFact == 1
+
 def onceOk (inp : Input) (obs : Obs) : Bool :=
   match obs.steps with
   | [] => false
-  | c :: calls =>
-    c.evs.countP isDflt == (if inp.sh.cfg = .none || inp.sh.dflt = .absent then 0 else 1) &&
-    c.evs.countP isFill == (if inp.w.hasFill then 1 else 0) &&
-    c.evs.countP isCtor == (if fillFailed c then 0 else 1) &&
-    c.evs.countP isFact == 0 &&
-    calls.all fun s => s.evs.length == 1 && s.evs.countP isFact == 1
+  | c :: calls => onceCreateOk inp.sh inp.w c && calls.all onceCallOk
 
 /-- verdict of the whole Spec on an observation (`none` = registration panicked) -/
 def judge (inp : Input) (obs : Option Obs) (fields : List Nat) : String :=
